@@ -310,6 +310,16 @@ fn nest_strategy() -> impl Strategy<Value = String> {
 }
 
 const SPECIALS: &[&str] = &[
+    // reported by sub-agents while preparing seeded changes
+    "void f(float2x2 m) { }\nvoid g() { f(1.0f); f(1); float2x2 m = 2; m = 3.0; f(m * 2.0); }\n",
+    "void f(float2x2 m) { }\nvoid f(float2 v) { }\nvoid f(float s) { }\nvoid g() { f(1.0f); f(1); f(true); }\n",
+    "template<typename T> T f(T x);\nint g() { return f(1); }\n",
+    "template<typename T> T f(T x);\ntemplate<typename T> T f(T x) { return x; }\nint g() { return f(1) + f<int>(2); }\n",
+    "static const uint N = 4;\nenum E { A = N, C = A | 16 };\nint g() { return (int)C; }\n",
+    "static const int M = 4;\nenum E2 { A2 = M, B2 = A2 + 1, C2 = A2 | B2, D2 = ~A2, F2 = A2 << 2 };\n",
+    "template<typename T> void f(T x) { }\nTexture2D<float4> t;\nvoid g() { f(t.mips); f(t.mips[0]); }\n",
+    "int h() { return 3; }\nstatic int g = h();\nstatic int k = g + 1;\n[numthreads(1, 1, 1)] void cs() { g; k; }\nPipeline P { ComputeShader = cs; }\n",
+    "static int a = 1;\nstatic int b = a + 1;\n[numthreads(1, 1, 1)] void cs() { b; }\nPipeline P { ComputeShader = cs; }\n",
     // language features outside of the program generator: struct templates, inheritance, function-local statics, typedefs
     "template<typename T> struct Box { T value; T twice() { return value + value; } };\nint f(int k) { Box<int> b; b.value = k; Box<float> c; c.value = 0.5; return b.twice() + (int)c.twice(); }\n",
     "template<typename T> struct Pair { T a; T b; };\nStructuredBuffer<Pair<float> > g;\n[numthreads(1, 1, 1)] void cs() { g[0].a; }\nPipeline P { ComputeShader = cs; }\n",
@@ -689,6 +699,37 @@ fn run_parts(ctx: &mut Ctx) {
             wrap("array_sizes", text, &((v % 5) as usize, 0, (v / 5) % 2 == 1, 1))
         };
         ctx.run_enum("array_sizes_x_places", per * 10, true, make, |i| check_record(&make(i)));
+    }
+    // ---- every way to give a bind group x boundary values x every kind of bound entity
+    {
+        const VALUES: &[&str] = &["0", "1", "7", "1023", "1024", "65535", "1000000", "2147483647", "4294967295", "4294967296", "-1"];
+        const ENTITIES: &[(&str, &str, char)] = &[
+            ("Texture2D<float4> zr", ";\n", 't'),
+            ("cbuffer ZC", " { float4 zm; }\n", 'b'),
+            ("ConstantBuffer<ZS> zr", ";\n", 'b'),
+            ("SamplerState zr", ";\n", 's'),
+            ("RWStructuredBuffer<uint> zr[3]", ";\n", 'u'),
+            ("SamplerState zr", " = StaticSampler { Filter = MIN_MAG_MIP_LINEAR; };\n", 's'),
+            ("ByteAddressBuffer zr", ";\n", 't'),
+        ];
+        let per = (VALUES.len() * ENTITIES.len() * 4) as u64;
+        let make = |i: u64| {
+            let k = (i % per) as usize;
+            let value = VALUES[k % VALUES.len()];
+            let (head, tail, letter) = ENTITIES[(k / VALUES.len()) % ENTITIES.len()];
+            let spelling = k / (VALUES.len() * ENTITIES.len());
+            let (prefix, suffix, default) = match spelling {
+                0 => (format!("[[rssl::bind_group({})]] ", value), String::new(), String::new()),
+                1 => (String::new(), format!(" : register({}2, space{})", letter, value), String::new()),
+                2 => (format!("[[vk::binding(1, {})]] ", value), String::new(), String::new()),
+                _ => (String::new(), String::new(), format!(" DefaultBindGroup = {};", value)),
+            };
+            // a static sampler takes no register index
+            let suffix = if tail.contains("StaticSampler") && spelling == 1 { format!(" : register(space{})", value) } else { suffix };
+            let text = format!("struct ZS {{ float4 a; }};\n{}{}{}{}[numthreads(1, 1, 1)] void cs() {{ }}\nPipeline P {{ ComputeShader = cs;{} }}\n", prefix, head, suffix, tail, default);
+            wrap("bind_group_values", text, &(((i / per) % 5) as usize, 0, false, 1))
+        };
+        ctx.run_enum("bind_group_values", per * 5, true, make, |i| check_record(&make(i)));
     }
     // ---- definitions that mention the entity they define
     {
